@@ -166,9 +166,10 @@ func newMap(keyT types.Type) *Map {
 // ---------- channels (thread mode / simple buffered use) ----------
 
 type Chan struct {
-	buf    []value
-	cap    int
-	closed bool
+	buf         []value
+	cap         int
+	closed      bool
+	recvWaiting int // goroutines parked in a receive on this channel
 }
 
 // ---------- type helpers ----------
